@@ -7,7 +7,14 @@
    data[]            -> [buckets] : one chain per cell, newest item first (insert links at the head),
                         a chain lists the keys of its items in nextCell order;
                         [has_data] = (data != 0), the array is allocated by the first insertion
-   _begin … endItem  -> [order] : the items in iteration order (key, value, slot)
+   _begin … endItem  -> [order] : the items in iteration order (key, value, slot), i.e. the chain reached from
+                        _begin.item through the next links, up to (not including) an end sentinel;
+                        every container object owns one sentinel (its member endItem), named here by the
+                        index of the container variable.  Two links around the sentinel are explicit because
+                        swap() re-anchors exactly these:
+                        [end_prev]  = endItem.prev of this object's sentinel (None = null pointer);
+                        [end_owner] = the sentinel the chain runs into: the target of the last item's next
+                                      pointer, or of _begin.item itself when there is no item
    _size, capacity   -> [size], [cap]
    freeItem, blocks  -> [free] (LIFO, head = freeItem), [nblocks]; a slot is (block serial, index)
    NO proofs in this file. *)
@@ -33,12 +40,15 @@ Record table := mktable {
   order : list node;
   size : Z;
   free : list slot;
-  nblocks : Z
+  nblocks : Z;
+  end_prev : option slot;
+  end_owner : nat
 }.
 
 (* constructors: HashMap() / HashMap(usize capacity) { this->capacity |= (usize)!capacity; } *)
 Definition ctor_cap (c : Z) : Z := if c =? 0 then 1 else c.
-Definition new_table (c : Z) : table := mktable c false [] [] 0 [] 0.
+(* x = the variable the object is constructed in: _begin(&endItem), endItem.prev = 0 *)
+Definition new_table (x : nat) (c : Z) : table := mktable c false [] [] 0 [] 0 None x.
 
 (* hashCode % capacity *)
 Definition bidx (t : table) (k : K) : nat := Z.to_nat (hash k mod cap t).
@@ -77,7 +87,7 @@ Definition alloc (kd : kind) (fr : list slot) (nb : Z) : slot * list slot * Z :=
   end.
 
 Definition set_order (t : table) (o : list node) : table :=
-  mktable (cap t) (has_data t) (buckets t) o (size t) (free t) (nblocks t).
+  mktable (cap t) (has_data t) (buckets t) o (size t) (free t) (nblocks t) (end_prev t) (end_owner t).
 
 (* insert(position, key[, value]) *)
 Definition insert (kd : kind) (t : table) (pos : nat) (k : K) (v : Z) : table * iter K :=
@@ -92,8 +102,11 @@ Definition insert (kd : kind) (t : table) (pos : nat) (k : K) (v : Z) : table * 
       let '(s, fr, nb) := alloc kd (free t) (nblocks t) in
       let v' := ins_value kd v in
       let b := bidx t k in
+      (* insertPos = position.item; item->prev = insertPos->prev, item->next = insertPos; insertPos->prev = item:
+         when no item stands at rank pos, insertPos is the end sentinel and its prev becomes the new item *)
       (mktable (cap t) true (upd b (k :: nth b bs []) bs)
-               (insert_at pos (mknode k v' s) (order t)) (size t + 1) fr nb,
+               (insert_at pos (mknode k v' s) (order t)) (size t + 1) fr nb
+               (match nth_error (order t) pos with None => Some s | Some _ => end_prev t end) (end_owner t),
        Some (pos, k, v'))
   end.
 
@@ -104,7 +117,10 @@ Fixpoint remove_first (k : K) (l : list K) : list K :=
   end.
 
 (* remove(iterator): unlink from the chain (through the cell back-pointer), unlink from the
-   order list, --_size, destroy, push on the free list *)
+   order list, --_size, destroy, push on the free list.
+   (item->prev ? item->prev->next : _begin.item) = item->next;  item->next->prev = item->prev:
+   when the item is the last one, item->next is the end sentinel and its prev becomes the
+   predecessor (null when the item was also the first) *)
 Definition remove_at (t : table) (r : nat) : table :=
   match nth_error (order t) r with
   | None => t
@@ -113,15 +129,35 @@ Definition remove_at (t : table) (r : nat) : table :=
       mktable (cap t) (has_data t)
               (upd b (remove_first (nkey n) (nth b (buckets t) [])) (buckets t))
               (remove_nth r (order t)) (size t - 1) (nslot n :: free t) (nblocks t)
+              (match nth_error (order t) (S r) with
+               | Some _ => end_prev t
+               | None => match r with O => None | S r' => option_map nslot (nth_error (order t) r') end
+               end)
+              (end_owner t)
   end.
 
 Definition remove_key (t : table) (k : K) : table :=
   match find_node t k with Some (r, _) => remove_at t r | None => t end.
 
-(* clear(): every item is destroyed, *item->cell = 0, pushed on the free list in iteration order *)
-Definition clear (t : table) : table :=
+(* clear(): every item is destroyed, *item->cell = 0, pushed on the free list in iteration order;
+   _begin.item = &endItem; endItem.prev = 0  (x = the variable holding the object) *)
+Definition clear (x : nat) (t : table) : table :=
   mktable (cap t) (has_data t) (map (fun _ => []) (buckets t)) [] 0
-          (rev (map nslot (order t)) ++ free t) (nblocks t).
+          (rev (map nslot (order t)) ++ free t) (nblocks t) None x.
+
+(* One half of swap(): the object in variable x takes over the fields of [src] (the other object, or
+   the temporaries that saved this object's fields) and re-anchors the list on ITS OWN sentinel:
+     if((endItem.prev = src.endItem.prev)) { endItem.prev->next = &endItem; _begin.item = src._begin.item; }
+     else _begin.item = &endItem;
+     _size = src._size; capacity = src.capacity; data = src.data; freeItem = src.freeItem; blocks = src.blocks;
+   With a last item: the chain is the one src._begin leads to, and the next pointer of the item
+   endItem.prev (in the list representation: the last one) now targets the sentinel of x.
+   Without: _begin.item is the sentinel of x itself - the chain of x is empty whatever src._begin was. *)
+Definition take (x : nat) (src : table) : table :=
+  match end_prev src with
+  | Some l => mktable (cap src) (has_data src) (buckets src) (order src) (size src) (free src) (nblocks src) (Some l) x
+  | None => mktable (cap src) (has_data src) (buckets src) [] (size src) (free src) (nblocks src) None x
+  end.
 
 Definition append_all (kd : kind) (t : table) (l : list node) : table :=
   fold_left (fun a n => fst (insert kd a (length (order a)) (nkey n) (nval n))) l t.
@@ -168,8 +204,8 @@ Definition with_2 (st : list table) (x y : nat) (f : table -> table -> list tabl
 Definition step (kd : kind) (st : list table) (o : op K) : list table * res K :=
   if negb (op_allowed kd o) then (st, RPre) else
   match o with
-  | ONew x c => if c <? 0 then (st, RPre) else with_var st x (fun _ => (new_table (ctor_cap c), RNone))
-  | ONewDefault x => with_var st x (fun _ => (new_table default_capacity, RNone))
+  | ONew x c => if c <? 0 then (st, RPre) else with_var st x (fun _ => (new_table x (ctor_cap c), RNone))
+  | ONewDefault x => with_var st x (fun _ => (new_table x default_capacity, RNone))
   | OFind x k => with_var st x (fun t => (t, RIter (it_of (find_node t k))))
   | OContains x k => with_var st x (fun t => (t, RBool (match find_node t k with Some _ => true | None => false end)))
   | OInsert x pos k v =>
@@ -194,19 +230,23 @@ Definition step (kd : kind) (st : list table) (o : op K) : list table * res K :=
       with_var st x (fun t => if is_nil (order t) then (t, RPre)
                               else let r := pred (length (order t)) in
                                    let t' := remove_at t r in (t', RIter (iter_at t' r)))
-  | OClear x => with_var st x (fun t => (clear t, RNone))
-  | OSwap x y => with_2 st x y (fun a b => (upd y a (upd x b st), RNone))
+  | OClear x => with_var st x (fun t => (clear x t, RNone))
+  | OSwap x y =>
+      (* a.swap(b): the fields of a are saved, a takes b's, b takes the saved ones; each side re-anchors
+         the list it receives on its own end sentinel (the objects stay where they are, only their
+         contents move) *)
+      with_2 st x y (fun a b => (upd y (take y a) (upd x (take x b) st), RNone))
   | OFront x =>
       with_var st x (fun t => match order t with [] => (t, RPre) | n :: _ => (t, node_res kd n) end)
   | OBack x =>
       with_var st x (fun t => match rev (order t) with [] => (t, RPre) | n :: _ => (t, node_res kd n) end)
   | OCopy x y =>
-      with_2 st x y (fun _ b => (upd x (append_all kd (new_table default_capacity) (order b)) st, RNone))
+      with_2 st x y (fun _ b => (upd x (append_all kd (new_table x default_capacity) (order b)) st, RNone))
   | OAssign x y =>
       (* modelled with the self-assignment guard (if(this != &other)) that the repair of the
          C04 finding adds; for x <> y this is the code as it stands: clear(), then append each *)
       with_2 st x y (fun a b => if (x =? y)%nat then (st, RNone)
-                                else (upd x (append_all kd (clear a) (order b)) st, RNone))
+                                else (upd x (append_all kd (clear x a) (order b)) st, RNone))
   | OEq x y => with_2 st x y (fun a b => (st, RBool (eq_tables kd a b)))
   | OAppendAll x y => with_2 st x y (fun a b => (upd x (append_all kd a (order b)) st, RNone))
   | ORemoveAll x y => with_2 st x y (fun a b => (upd x (remove_all a (order b)) st, RNone))
@@ -219,7 +259,9 @@ Definition step (kd : kind) (st : list table) (o : op K) : list table * res K :=
   end.
 
 Definition entries (t : table) : list (K * Z) := map (fun n => (nkey n, nval n)) (order t).
-Definition m_obs (t : table) : tobs K := (size t, is_nil (order t), entries t).
+(* size() = _size;  isEmpty() = (endItem.prev == 0);  iteration from _begin along the next links *)
+Definition m_obs (t : table) : tobs K :=
+  (size t, match end_prev t with None => true | Some _ => false end, entries t).
 
 Fixpoint run (kd : kind) (st : list table) (ops : list (op K)) : list (res K * list (tobs K)) :=
   match ops with
@@ -227,13 +269,17 @@ Fixpoint run (kd : kind) (st : list table) (ops : list (op K)) : list (res K * l
   | o :: rest => let (st', r) := step kd st o in (r, map m_obs st') :: run kd st' rest
   end.
 
-Definition init (caps : list Z) : list table := map new_table caps.
+(* one container variable per capacity: variable i holds an object constructed with caps[i] *)
+Fixpoint init_from (i : nat) (caps : list Z) : list table :=
+  match caps with [] => [] | c :: rest => new_table i c :: init_from (S i) rest end.
+Definition init (caps : list Z) : list table := init_from O caps.
 
 End Model.
 
 Arguments mknode {K}. Arguments nkey {K}. Arguments nval {K}. Arguments nslot {K}.
 Arguments mktable {K}. Arguments cap {K}. Arguments has_data {K}. Arguments buckets {K}. Arguments order {K}.
-Arguments size {K}. Arguments free {K}. Arguments nblocks {K}.
+Arguments size {K}. Arguments free {K}. Arguments nblocks {K}. Arguments end_prev {K}. Arguments end_owner {K}.
+Arguments take {K}. Arguments init_from {K}.
 Arguments new_table {K}. Arguments bidx {K}. Arguments chain {K}. Arguments chain_has {K}. Arguments locate {K}.
 Arguments find_node {K}. Arguments it_of {K}. Arguments iter_at {K}. Arguments set_order {K}. Arguments insert {K}.
 Arguments remove_first {K}. Arguments remove_at {K}. Arguments remove_key {K}. Arguments clear {K}.
